@@ -1,4 +1,5 @@
 import GlyProofs.Front.CreateLemmas
+import GlyProofs.Smiles.Shape
 /-
   C13 — Reducing-end anomer and SMILES start atom change only what they should. (Property theorems only.)
 -/
@@ -46,5 +47,19 @@ theorem C13_start_examples :
     startAtom [100, 1, 0, 2, 0, 3, 0, 4, 0, 5, 6, 0] 4 = some 7 ∧
     startAtom [100, 1, 0, 2, 0, 3, 0, 4, 0, 5, 6, 0] 50 = some 1 ∧
     startAtom [100, 1, 0, 2, 0, 3, 0, 4, 0, 5, 6, 0] 100 = some 0 := by decide
+
+open Gly.Smi in
+/-- **A stereo mark is local to its atom.** If two SMILES have the same shape – position by position the same token, or an
+    atom in both (e.g. `[C@H]` / `[C@@H]` / `C` at the reducing end's anomeric carbon) – they denote the same bonds, the same
+    ordered neighbour lists and the same ring closures; the molecules differ exactly in the texts of the atoms that were
+    written differently. Applied to the root's a / b / undefined boundary strings: declaring the anomer changes one atom
+    token and nothing else, however many children are grafted elsewhere (`C01_graft` keeps every other token). -/
+theorem C13_mark_is_local (ts ts' : List Tok) (hf : ShapeList ts ts') (x : St) (h : run St.init ts = some x) :
+    ∃ x', run St.init ts' = some x' ∧ x'.evs = x.evs ∧ x'.stack = x.stack ∧ x'.opens = x.opens ∧
+      x.atoms = atomsOf ts ∧ x'.atoms = atomsOf ts' := by
+  obtain ⟨x', hx', hb⟩ := run_shape ts ts' hf St.init St.init x ⟨rfl, rfl, rfl, rfl, rfl, rfl⟩ h
+  refine ⟨x', hx', hb.1, hb.2.2.1, hb.2.2.2.2.1, ?_, ?_⟩
+  · simpa [St.init] using run_atoms ts St.init x h
+  · simpa [St.init] using run_atoms ts' St.init x' hx'
 
 end Gly.Props.C13
